@@ -78,7 +78,8 @@ const NAMES: [&str; 2] = ["x", "y"];
 fn labels(i: usize) -> Vec<(&'static str, &'static str)> {
     match i {
         0 => vec![],
-        _ => vec![("a", "1"), ("b", "2")],
+        // (a label with an empty value is still a label: the series differs from the unlabelled one)
+        _ => vec![("a", "1"), ("b", ""), ("c", "2")],
     }
 }
 fn key(name: usize, lab: usize) -> Key {
